@@ -14,7 +14,7 @@ def ev (kind field : String) (idx : Nat) (args : List Val) : Event :=
 /-- the callbacks one field contributes before its value is stored: factory (only when no value was
     supplied), then converter on the raw value -/
 def attrEvents (attrs : List Attr) (c : Call) (a : Attr) : List Event :=
-  let given := if a.init then C01.passed (params attrs) c a.alias else none
+  let given := if a.init then passed (params attrs) c a.alias else none
   let fac := match given, a.dflt with
     | none, .factory ts => [ev "factory" a.name 0 (factoryArgs ts)]
     | _, _ => []
@@ -32,16 +32,19 @@ def validatorEventsOf (attrs : List Attr) (c : Call) : List Event :=
     keyword-only ones by name; defaults for what was not passed -/
 def preEventArgs (attrs : List Attr) (c : Call) : List Val :=
   let ps := params attrs
-  let val (p : Param) : Val := match C01.passed ps c p.name with
+  let val (p : Param) : Val := match passed ps c p.name with
     | some v => v
     | none => p.dflt.getD "?"
   (ps.filter (!·.kwOnly)).map val ++ (ps.filter (·.kwOnly)).map (fun p => p.name ++ "=" ++ val p)
 
+def preEvents (r : RunIn) (c : Call) : List Event :=
+  match r.cfg.pre with
+  | .none => []
+  | .noArgs => [ev "pre" "" 0 []]
+  | .withArgs => [ev "pre" "" 0 (preEventArgs r.attrs c)]
+
 def expectedTrace (r : RunIn) (c : Call) : List Event :=
-  (match r.cfg.pre with
-   | .none => []
-   | .noArgs => [ev "pre" "" 0 []]
-   | .withArgs => [ev "pre" "" 0 (preEventArgs r.attrs c)]) ++
+  preEvents r c ++
   (r.attrs.filter participates).flatMap (attrEvents r.attrs c) ++
   (if r.cfg.runValidators then validatorEventsOf r.attrs c else []) ++
   (if r.cfg.post then [ev "post" "" 0 []] else [])
@@ -53,19 +56,18 @@ def cutAt (fault : Option EventId) : List Event → List Event
 
 def hits (fault : Option EventId) (es : List Event) : Bool := es.any (fun e => fault = some e.id)
 
+/-- per-field events of the listed fields up to and including field `n` -/
+def upTo (evs : Attr → List Event) (n : String) : List Attr → List Event
+  | [] => []
+  | b :: bs => evs b ++ (if b.name == n then [] else upTo evs n bs)
+
 /-- the events that precede the store of field `a` (pre-init, and every field up to and including `a`) -/
 def eventsUpTo (r : RunIn) (c : Call) (a : Attr) : List Event :=
-  let rec go : List Attr → List Event
-    | [] => []
-    | b :: bs => attrEvents r.attrs c b ++ (if b.name == a.name then [] else go bs)
-  (match r.cfg.pre with
-   | .none => []
-   | .noArgs => [ev "pre" "" 0 []]
-   | .withArgs => [ev "pre" "" 0 (preEventArgs r.attrs c)]) ++ go (r.attrs.filter participates)
+  preEvents r c ++ upTo (attrEvents r.attrs c) a.name (r.attrs.filter participates)
 
 def wf (c : Case) : Bool :=
   C01.wf { c with run := { c.run with fault := none } } &&
-  C01.callOk (params c.run.attrs) c.call
+  callOk (params c.run.attrs) c.call
 
 def known (c : Case) : List String := C01.known c
 
